@@ -51,7 +51,7 @@ def do_confirm(sid):
         if "miri" in json.dumps(meta).lower() and meta.get("property") == "C20" and meta.get("needs_miri"):
             rc, out = sh("cargo +nightly miri run --offline --example demo 2>&1 | tail -30", cwd=wt, env=env, timeout=1800)
         else:
-            rc, out = sh("cargo run --offline %s --example demo 2>&1 | grep -E 'PROPERTY-|panicked' | head -5" % flag, cwd=wt, env=env)
+            rc, out = sh("cargo run --offline %s --example demo 2>&1 | grep -E 'PROPERTY-|panicked' | sort -u | grep -E 'PROPERTY-' | head -5" % flag, cwd=wt, env=env)
         res["demo_mutated"] = out.strip()[:600]
         sh("git checkout -- . ", cwd=wt)
         rc, out = sh("cargo run --offline %s --example demo 2>&1 | grep -E 'PROPERTY-|panicked' | head -5" % flag, cwd=wt, env=env)
